@@ -15,6 +15,7 @@ import (
 
 	"github.com/vektah/gqlparser/v2"
 	"github.com/vektah/gqlparser/v2/ast"
+	"github.com/vektah/gqlparser/v2/parser"
 	"github.com/vektah/gqlparser/v2/validator"
 )
 
@@ -197,6 +198,14 @@ func (f *Fakes) record(svc, call int, reqs []wireReq, multi bool, files map[stri
 		}
 		if doc == nil {
 			sr.Invalid = f.cerr[key]
+			if pd, perr := parser.ParseQuery(&ast.Source{Input: rq.Query}); perr == nil && len(pd.Operations) > 0 {
+				sr.Keyword = pd.Operations[0].Operation
+				for _, sel := range pd.Operations[0].SelectionSet {
+					if fl, ok := sel.(*ast.Field); ok {
+						sr.Roots = append(sr.Roots, fl.Name)
+					}
+				}
+			}
 			out[i] = map[string]interface{}{"errors": []interface{}{map[string]interface{}{"message": "INVALID SUBREQUEST: " + sr.Invalid}}, "data": nil}
 			continue
 		}
